@@ -141,6 +141,17 @@ PROPS["C11"] = {
                   "lock; the harness compiles random call sequences in ONE executor and compares every compile with the model on an EMPTY cache.",
     "level_note": "Trusted: as C10. The concurrent case (two compilations racing on shared definitions) is C18's.",
 }
+_sched("C02", "Theorems over every accepted trace: the non-deferred entries of one execution start one at a time, in strictly increasing index order, "
+              "each closed before the next (seqMon, C02_seq); a `task:` entry returns only after the callee, all its descendants at any depth and all "
+              "its deferred entries have finished (C02_call_sync, C02_descendants_done); a woken dedup waiter implies the shared execution is over. "
+              "Loop order (list, row-major matrix) and call variables: Props.C02Vars over the Vars model, tied by domain `vars`.")
+PROPS["C02"]["domains"] = [{"name": "sched"}, {"name": "vars", "env": {"VERIF_VARS_ENVDEP": "0"}}]
+PROPS["C02"]["lean"] = "Props.C02All"
+_sched("C03", "Theorems over every accepted trace: after a command failure that is not ignored no later non-deferred entry of that activation starts "
+              "(failStopMon); the failure propagates to callers (task: entries) and dependents (deps), which start nothing further; ignore_error is exact "
+              "(command level: that shell command's exit status only; task level: exit statuses of its own entries only); exit codes from Gen.Codes: "
+              "201 / the command's status with --exit-code for own commands, callees and dependencies (one level + chain lemma). Full status statement "
+              "refuted for one corner (a top-level call that became a dedup waiter gets the raw error: exit 1) by a machine-checked counterexample.")
 
 
 def _has_meta(s):
